@@ -511,7 +511,9 @@ pub fn run(tkind: TKind, raw: bool, depth: usize) {
 
 pub fn run_mode(tkind: TKind, raw: bool, depth: usize, deep: bool) {
     hal::reset();
-    let feats = [F_VERSION_1 | (1 << 5), (1 << 5) | (1 << 16), F_VERSION_1 | F_INDIRECT | F_EVENT_IDX];
+    // (The legacy set also offers features the driver does not support - checksum offload,
+    // mergeable receive buffers, control queue: what counts is what was negotiated.)
+    let feats = [F_VERSION_1 | (1 << 5), (1 << 5) | (1 << 16) | 1 | (1 << 15) | (1 << 17), F_VERSION_1 | F_INDIRECT | F_EVENT_IDX];
     let offered = feats[choose(feats.len(), "offered features")];
     let kind = if raw { Kind::NetRaw } else { Kind::NetBuf };
     let w = DWorld::new(kind, tkind, offered, kind.default_config());
